@@ -141,6 +141,8 @@ def gen_trace(rng, mode):
     for _ in range(rng.randint(1, 5)):
         for _ in range(rng.choice([0, 0, 1, 1, 2])):
             tr += rx_packet(rng, junk_packet(rng), speed, fv(), gaps) + gap()
+        if rng.random() < 0.4:      # an aborted packet directly before the SETUP token
+            tr += rx_packet(rng, truncated_packet(rng), speed, fv(), gaps) + idle(rng.choice([1, 2, 3]), speed)
         r = rng.random()
         tr += rx_packet(rng, token(SETUP, ep=rng.choice([0, 0, 0, 3])), speed, fv(), gaps) + gap()
         if r < 0.15:        # corrupted data stage, host retries
@@ -184,7 +186,24 @@ def directed(rng):
             out.append(idle(1, speed) + pk(token(SETUP)) + idle(2, speed) + pk(good + ex) + tail)
             out.append(idle(1, speed) + pk(token(SETUP)) + idle(2, speed) + pk(data(good[1:] + ex)) + tail
                        + pk(token(SETUP)) + idle(2, speed) + pk(good) + tail)
+        # the packet before a valid SETUP transaction is cut off at EVERY byte position: tokens after the PID / one byte /
+        # two bytes, data packets after the PID / mid-payload / after one CRC byte, a handshake, an empty run
+        good = data(REF_SETUP)
+        cuts = []
+        for tk in (token(OUT, ep=1), token(SETUP), token(IN), token(PING), token(SOF, addr=0x23, ep=4)):
+            cuts += [tk[:1], tk[:2], tk[:3]]
+        cuts += [good[:k] for k in range(1, len(good))] + [[ACK], [NAK], []]
+        for c in cuts:
+            out.append(idle(1, speed) + pk(c) + idle(rng.choice([1, 2, 3]), speed)
+                       + pk(token(SETUP)) + idle(2, speed) + pk(good) + tail)
     return out
+
+
+def truncated_packet(rng):
+    """a token / data / handshake packet aborted at a random byte position (possibly complete)"""
+    base = rng.choice([token(rng.choice([OUT, IN, SETUP, PING]), ep=rng.choice([0, 1])), token(SOF, addr=rng.randrange(128), ep=rng.randrange(16)),
+                       data(rand_payload(rng, rng.choice([0, 3, 8]))), [rng.choice([ACK, NAK])]])
+    return base[:rng.randint(0, len(base))]
 
 
 def overlong_packet(rng):
@@ -206,7 +225,10 @@ def sweeps(tier):
             ("setup_crcflip_fs", "sweep_setup_crcflip 1", 4,
              "full speed: SETUP token + DATA0 with each single CRC16 bit flipped"),
             ("setup_extra_hs", "sweep_setup_extra 0", 10,
-             "high speed: SETUP token + a complete valid setup data packet followed by 1..4 copies of each of the 256 byte values")] + \
+             "high speed: SETUP token + a complete valid setup data packet followed by 1..4 copies of each of the 256 byte values"),
+            ("abort_then_setup_hs", "sweep_abort_then_setup 0", 10,
+             "high speed: a packet aborted after PID+1 byte (OUT, SETUP), any single byte, or IN+2 equal bytes, for all 256 byte values, "
+             "directly before a valid SETUP transaction")] + \
            ([("setup_bytes_fs", "sweep_setup_byte 1", 11, "full speed: same byte sweep, incl. the delayed ACK")]
             if tier != "quick" else [])
 
